@@ -237,3 +237,16 @@ package clickhouse_transpiler
 //@ func (*simpleExpressionPlanner).valuesV2Planner [C12]
 //@   flag checks=-index,-assert
 //@   check a-selector-without-condition-lists-all-values: result1 == nil && isnil(p.cond) ==> typeis(result0, "*AllValuesRequestPlanner")
+
+// The operator table of duration terms and aggregate filters: every operator of the
+// query is the SQL comparison of the same meaning - >= keeps the boundary value, > does
+// not - and anything else is refused.
+//@ func getComparisonFn [C11]
+//@   modifies nothing
+//@   ensures eq: op == "=" ==> result1 == nil && result0 == sql.Eq
+//@   ensures gt: op == ">" ==> result1 == nil && result0 == sql.Gt
+//@   ensures lt: op == "<" ==> result1 == nil && result0 == sql.Lt
+//@   ensures ge: op == ">=" ==> result1 == nil && result0 == sql.Ge
+//@   ensures le: op == "<=" ==> result1 == nil && result0 == sql.Le
+//@   ensures neq: op == "!=" ==> result1 == nil && result0 == sql.Neq
+//@   ensures other-operators-refused: op != "=" && op != ">" && op != "<" && op != ">=" && op != "<=" && op != "!=" ==> result1 != nil
